@@ -75,12 +75,26 @@ theorem isOrthonormal_relabel (lm : Fin N → Fin N) (hbij : Function.Bijective 
 theorem rowMeans_apply {n k : Nat} (A : Mat n k K) (i : Fin n) : rowMeans A i = (∑ j, A i j) / (k : K) := by
   simp [rowMeans, sumFin_eq_sum]
 
+/-- for symmetric geodesics the averaging of the two directions (fix F-ISOMAP-ASYM) changes nothing -/
+theorem isomapPre_of_symm [CharZero K] (G : Mat N N K) (hsym : ∀ x y, G x y = G y x) :
+    isomapPreOfGeodesics G = scale negHalf (centerMatrix (fun i j => G i j * G i j)) := by
+  unfold isomapPreOfGeodesics
+  have : (fun i j => (G i j * G i j + G j i * G j i) / (((2 : Nat) : K))) = fun i j => G i j * G i j := by
+    funext i j
+    rw [hsym j i]
+    have h2 : (((2 : Nat) : K)) ≠ 0 := by exact_mod_cast (two_ne_zero : (2 : Nat) ≠ 0)
+    field_simp
+    push_cast
+    ring
+  rw [this]
+
 /-- the `N × N` matrix Landmark Isomap builds from the relabelled rows of a symmetric geodesic matrix is the Isomap
     matrix with its rows relabelled -/
-theorem lisomapPre_relabel (G : Mat N N K) (hsym : ∀ x y, G x y = G y x) (lm : Fin N → Fin N)
+theorem lisomapPre_relabel [CharZero K] (G : Mat N N K) (hsym : ∀ x y, G x y = G y x) (lm : Fin N → Fin N)
     (hbij : Function.Bijective lm) (k j : Fin N) :
     lisomapPre (fun k j => G (lm k) j) k j = isomapPreOfGeodesics G (lm k) j := by
-  unfold lisomapPre isomapPreOfGeodesics lisomapWith scale
+  rw [isomapPre_of_symm G hsym]
+  unfold lisomapPre lisomapWith scale
   rw [centerMatrix_apply]
   have hc : colMeans (sqMat fun k j => G (lm k) j) j = colMeans (fun i j => G i j * G i j) j := by
     rw [colMeans_apply, colMeans_apply]
@@ -101,9 +115,10 @@ theorem lisomapPre_relabel (G : Mat N N K) (hsym : ∀ x y, G x y = G y x) (lm :
   simp only [sqMat]
   ring
 
-theorem isomapPre_symm (G : Mat N N K) (hsym : ∀ x y, G x y = G y x) (x y : Fin N) :
+theorem isomapPre_symm [CharZero K] (G : Mat N N K) (hsym : ∀ x y, G x y = G y x) (x y : Fin N) :
     isomapPreOfGeodesics G x y = isomapPreOfGeodesics G y x := by
-  unfold isomapPreOfGeodesics scale
+  rw [isomapPre_of_symm G hsym]
+  unfold scale
   rw [centerMatrix_apply, centerMatrix_apply, hsym x y]
   ring
 
